@@ -198,16 +198,18 @@ Definition send_to_retrier (s : fstate) (t l : N) : fstate :=
   | None => push_chan s t (DFresh l)
   end.
 
+(* `state.add_pending_appointment(tower_id, &appointment); send_to_retrier(..)` under one lock *)
+Definition rev_pend (s0 : fstate) (l t : N) (send : bool) : fstate * option fsite :=
+  match wt_add_pending_appointment (f_c s0) t l BLOB DELAY with
+  | (c2, RAbort st) => (wr_c s0 c2, Some (SClient st))
+  | (c2, _) => let s2 := wr_c s0 c2 in (if send then send_to_retrier s2 t l else s2, None)
+  end.
+
 (* the body of the per-tower loop of on_commitment_revocation; `status` is the status cloned
    BEFORE the loop.  Some site = the handler panicked there. *)
 Definition rev_tower (s : fstate) (l t : N) (status : tower_status) (rp : areply) : fstate * option fsite :=
   if poisoned s then (s, Some (SClient Site_poisoned)) else
   if wt_has_appointment (f_c s) t l then (s, None) else
-  let pend (s0 : fstate) (send : bool) :=
-    match wt_add_pending_appointment (f_c s0) t l BLOB DELAY with
-    | (c2, RAbort st) => (wr_c s0 c2, Some (SClient st))
-    | (c2, _) => let s2 := wr_c s0 c2 in (if send then send_to_retrier s2 t l else s2, None)
-    end in
   if is_reachable status then
     let s1 := log_req s (ReqAdd t l) in
     match rp with
@@ -218,15 +220,15 @@ Definition rev_tower (s : fstate) (l t : N) (status : tower_status) (rp : areply
       let (c2, r) := wt_flag_misbehaving_tower (f_c s1) t l START_BLOCK USER_SIG SIG_OTHER (other_id t) in
       (wr_c s1 c2, lift_site r)
     | ABadSig | AConnErr | ADeserErr | AUnexpected =>
-      pend (set_c s1 (wt_set_tower_status (f_c s1) t TemporaryUnreachable)) true
+      rev_pend (set_c s1 (wt_set_tower_status (f_c s1) t TemporaryUnreachable)) l t true
     | ASubErr =>
-      pend (set_c s1 (wt_set_tower_status (f_c s1) t SubscriptionError)) true
+      rev_pend (set_c s1 (wt_set_tower_status (f_c s1) t SubscriptionError)) l t true
     | AApiErr =>
       let (c2, r) := wt_add_invalid_appointment (f_c s1) t l BLOB DELAY in
       (wr_c s1 c2, lift_site r)
     end
   else if is_misbehaving status then (s, None)
-  else pend s (negb (is_unreachable status)).
+  else rev_pend s l t (negb (is_unreachable status)).
 
 Definition reply_for (replies : list (N * areply)) (t : N) : areply :=
   match aget replies t with Some a => a | None => AConnErr end.
